@@ -19,6 +19,9 @@ func (r *Router) parseParamRoute(route *Route) (first string) {
 	if len(ss) == 0 {
 		regexStr := checkAndParseOptional(quotePointChar(path))
 		route.regex = regexp.MustCompile("^" + regexStr + "$")
+		if route.regex.NumSubexp() != 0 {
+			panic("invalid route path, dont allow capturing groups. path: " + route.path)
+		}
 		// literal first node before the optional part. "/users/list[.html]" -> "users"
 		if optPos := strings.IndexByte(path, '['); optPos > 2 {
 			if pos := strings.IndexByte(path[1:optPos], '/'); pos > 0 {
@@ -89,6 +92,10 @@ func (r *Router) parseParamRoute(route *Route) (first string) {
 	// replace {var} -> regex str
 	regexStr := strings.NewReplacer(varRegex...).Replace(path)
 	route.regex = regexp.MustCompile("^" + regexStr + "$")
+	// every capturing group must belong to a path var: "{id:(?:a)(b)}" is invalid
+	if route.regex.NumSubexp() != len(route.matches) {
+		panic("invalid path var regex string, dont allow capturing groups. path: " + route.path)
+	}
 	return
 }
 
